@@ -204,8 +204,15 @@ func (c *RawClient) Exchange(raw []byte, tid [12]byte) *wire.Msg {
 	_ = c.SendRaw(raw)
 	c.W.Settle()
 	c.Collect()
+	resp := c.TakeResponse(tid)
+	// a slow lifecycle callback (a harness yield point) may be holding the answer back
+	for i := 0; resp == nil && c.W.Bubble && c.W.CallbacksInFlight() > 0 && i < 60; i++ {
+		c.W.Sleep(time.Second)
+		c.Collect()
+		resp = c.TakeResponse(tid)
+	}
 
-	return c.TakeResponse(tid)
+	return resp
 }
 
 // Do performs an authenticated request: build is called with a fresh transaction id and must add
